@@ -258,7 +258,8 @@ fn run_property(prop: &str, tier: Tier, rep: &mut Report) -> Plan {
             pairs::run_c15_cross(rep);
             rep.require_class("c15:cross:same-content-different-signer");
             rep.require_class("c15:equal-pairs-present");
-            rep.require_class("c15:same-content-different-signature-pair");
+            // (a same-content / different-signature pair exists only while ECDSA signing is randomised:
+            // counted as an outcome class, deliberately not required)
             Plan { rule: "all ordered pairs of a pool of HIST states closed under clone, decode/encode, text round trip, re-signing, re-keying and one-field edits", assumptions: vec![TRUST, "std DefaultHasher::new() as the fixed hasher"] }
         }
         "C16" => {
